@@ -24,16 +24,19 @@ def hashseeds(tier):
 def gen(rng, tier):
     quick = tier == 'quick'
     cases = []
+    i = 0
     for n in range(1, 5 if quick else 6):
         for t in G.re_trees(n, 2):
-            cases.append({'kind': 're', 'r': t})
+            i += 1
+            cases.append({'kind': 're', 'r': G.relabel_re(t, G.CODE_SETS[i % len(G.CODE_SETS)])})
     for _ in range(150 if quick else 3000):
         t = G.random_re(rng, rng.randint(2, 5), 2)
         if G.re_nodes(t) <= 16:
             cases.append({'kind': 're', 'r': t})
     ds = G.all_dfas(2, 'a') + G.all_dfas(2, 'ab') + G.all_dfas(1, 'ab')
     ds += rng.sample(G.all_dfas(3, 'a'), 80) if quick else G.all_dfas(3, 'a')
-    ds += [G.random_dfa(rng, rng.randint(1, 5), rng.choice(['a', 'ab', ''])) for _ in range(120 if quick else 3000)]
+    ds += [G.random_dfa(rng, rng.randint(1, 5), rng.choice(['a', 'ab', '', '01', '1', 'a1', '_ε'])) for _ in range(120 if quick else 3000)]
+    ds += [dict(d, Sigma=['0', '1'], delta=[[q, {'a': '0', 'b': '1'}[a], t] for q, a, t in d['delta']]) for d in rng.sample(G.all_dfas(2, 'ab'), 40 if quick else 256)]
     for d in ds:
         cases.append({'kind': 'dfa', 'D': d})
     return cases
